@@ -134,6 +134,12 @@ CONTROLS = [
         'alt((tag("_"), is_a("01234567xXzZ?")))', 'alt((tag("_"), is_a("01xXzZ?")))', 1)]),
     ('x1-fast-path-before-pp-parser', 'X1', 'syn', 'preprocess_str:unscanned-exit', [(PPF,
         '    let mut skip = false;\n', '    if !s.contains(\'`\') && false {\n        return Ok((PreprocessedText::new(), HashMap::new()));\n    }\n    let mut skip = false;\n', 1)]),
+    ('w5-get-origin-fallback', 'W5', 'syn', 'get_origin', [(API,
+        '        self.text.origin(locate.offset)\n', '        self.text.origin(locate.offset).or_else(|| self.text.origin(locate.offset.saturating_sub(1)))\n', 1)]),
+    ('w6-empty-file-shortcut', 'W6', 'syn', 'preprocess_inner:result-not-from-string-entry', [(PPF,
+        '        Err(Error::ReadUtf8(PathBuf::from(path.as_ref())))\n    } else {', '        Err(Error::ReadUtf8(PathBuf::from(path.as_ref())))\n    } else if s.is_empty() {\n        Ok((PreprocessedText::new(), HashMap::new()))\n    } else {', 1)]),
+    ('x9-level-counted-in-file-entry', 'X9', 'syn', 'preprocess_inner->preprocess_str:include_depth:inc-in-wrapper', [(PPF,
+        '            strip_comments,\n            resolve_depth,\n            include_depth,\n        )\n    }\n}', '            strip_comments,\n            resolve_depth,\n            include_depth + 1,\n        )\n    }\n}', 1)]),
     ('x11-include-unguarded', 'X11', 'syn', 'open-unguarded', [(PPF, 'NodeEvent::Enter(RefNode::IncludeCompilerDirective(x)) if !ignore_include => {', 'NodeEvent::Enter(RefNode::IncludeCompilerDirective(x)) => {', 1)]),
     ('x12-search-reversed', 'X12', 'syn', 'search-order', [(PPF, '                    for include_path in include_paths {', '                    for include_path in include_paths.iter().rev() {', 1)]),
     ('p2-utf8-error-without-path', 'P2', 'syn', 'read-error', [(PPF, 'Err(Error::ReadUtf8(PathBuf::from(path.as_ref())))', 'Err(Error::ReadUtf8(PathBuf::new()))', 1)]),
